@@ -11,8 +11,8 @@ import framework as fw
 
 LEVEL = "proof"
 USE_TWINS = True
-EXTRACTORS = ["ray_constants"]
-CHECKER_MODULES = ["PyrexVerif.Proofs.RayBasic", "PyrexVerif.Proofs.RayDeriv", "PyrexVerif.Proofs.RayFTC", "PyrexVerif.Proofs.RayPath",
+EXTRACTORS = ["ray_constants", "ray_formulas"]
+CHECKER_MODULES = ["PyrexVerif.Proofs.RayBasic", "PyrexVerif.Proofs.RayDeriv", "PyrexVerif.Proofs.RayFTC", "PyrexVerif.Proofs.RayPath", "PyrexVerif.Proofs.RayCut", "PyrexVerif.Proofs.RayFormulaBridge",
                    "PyrexVerif.Proofs.RayTrap"]
 TECHNIQUE = ("Lean 4 theorems over the real-number reading of a twin model (HasDerivAt + fundamental theorem of "
              "calculus for the closed-form ray integrals) + constants translator + Float-twin differential run "
@@ -31,15 +31,22 @@ LEVEL_TEXT = ("theorems over R for every exponential ice (0<k, a>0, n>0 on the s
               "integral, via the FTC for non-negative derivatives), below z_uniform, and across it (int_diff "
               "bookkeeping); turning/reflection dichotomy; direct rays never turn; launch-angle conversion keeps beta "
               "and reverses the vertical sense; composite-trapezoid error bound for monotone integrands and its "
-              "instance for the numeric direct path; near-vertical branch values and bound; regenerated constants. "
+              "instance for the numeric direct path; the numeric indirect path incl. a bound on the piece cut off "
+              "by z_turn_proximity (O(sqrt dz) at a refractive turn-over, O(dz) at a surface reflection); "
+              "near-vertical branch values and bound; regenerated constants; formula bridge (the expressions of "
+              "_int_terms and of every branch of the three indefinite integrals, translated node by node from the "
+              "source, equal the model definitions). "
               "The same model text run on Float agrees with pyrex on every sampled input, and every brentq root is "
               "certified against the model's r function")
 LEVEL_NOTE = ("floating-point rounding is not modelled (tolerance run; the amplified cancellation in log_term_1 is "
               "budgeted explicitly and reported as known finding K9 where it exceeds 1 mm); brentq is untrusted search "
               "whose results are certified; the deep-ice branch (z<z_uniform) integrates a uniform index n0: theorems "
               "state its integrands and the 1e-5 relative index bound, not a bound on the resulting path error (the "
-              "search budgets it to first order); C01_basic_indirect_error_partial: the numeric indirect path is "
-              "bounded only up to the cut depth z_turn - dz/10, the cut-off part is modelled but not bounded; "
+              "search budgets it to first order); no _partial theorem remains (C01_basic_indirect_error[_reflect] bound "
+              "the numeric indirect path including the cut-off piece; they are stated for the integrand "
+              "tan(arcsin(beta/n(z))) and arbitrary positive cell counts, C01_basicIndirectR_unfold shows the model's "
+              "_indirect_r has that form with f = basicTan); _z_int_uniform_correction, z_integral and the tracer "
+              "methods are multi-statement and tied by correspondence only, not by the formula translator; "
               "near-vertical branch |beta|<=beta_tolerance is a stated approximation (known finding K3); known "
               "findings K7 (BasicRayTracer._indirect_r jumps when a trapezoid leg changes its cell count), K8 "
               "(SpecializedRayTracer link_range interpolation next to max_angle) are recorded, their input classes are "
